@@ -14,7 +14,7 @@ for pid in open('/verif/bin/registered.txt').read().split():
     if not os.path.isdir(W): continue
     p = props[pid]
     tk = '\n'.join('  - ' + t for t in taken.get(pid, [])) or '  (none)'
-    EXTRA = '' if rnd not in ('3', '4') else ('* Prefer changes whose effect depends on HISTORY or TIMING rather than on a single input: state that survives from an earlier\n'
+    EXTRA = '' if rnd not in ('3', '4', '5', '6') else ('* Prefer changes whose effect depends on HISTORY or TIMING rather than on a single input: state that survives from an earlier\n'
         '  operation (a stale flag, counter, pointer, cached length, buffer content), an error/early-return path taken earlier that leaves\n'
         '  something half-updated, a particular order of two legal calls, a resource reused after release, a boundary reached only after\n'
         '  several steps (wrap-around, full buffer, n-th repetition), or two cooperating edits in different functions that each look\n'
